@@ -3,7 +3,9 @@
 the four record types in use through the real functions, whole-file comparison with the model after every step,
 frame predicates on the implementation's own output, torn tails at every byte length; window reads of thousands of
 records on generated files of 5 000 / 70 000 records (index lists against the model, contents by digest); histories
-in one process during which the OS refuses some writes (RLIMIT_FSIZE = 0: EFBIG), followed by further operations, whole-file comparison after every step."""
+in one process during which the OS refuses some writes (RLIMIT_FSIZE = 0: EFBIG), followed by further operations, whole-file comparison after every step;
+sparse files (a few KiB on disk) with the addressed record at byte offsets around 2^31, 2^32, 2^33 and up to 2^40: append / substitute / delete-mark / count
+(+ GetRecords, ModifyDirLite) through the real functions, the whole file listed afterwards from its data extents and compared with the sparse model and a reference."""
 import hashlib, os, struct, sys
 sys.path.insert(0, os.path.join(os.path.dirname(os.path.abspath(__file__)), "..", "lib"))
 import vf
@@ -612,13 +614,15 @@ def main():
     c.sample({"op": "sparse large offset", "cases": len(spl), "largest file": max(int(l.split("|")[2]) for l in spl)})
 
     c.finish(rule="sequences: PRNG(seed) mixes of append/substitute/delete/count (+modify/read for .DIR) on files of 0-5 records with optional torn tail, indices from {first,last,random,count,beyond,negative}, stepped with whole-file comparison; "
-                  "enumerations: index -2..6 x {substitute, delete} x 4 strides, all GetRecords windows on 0..4 records, torn tails at every byte; long windows: n around 4096 / 2^k+1 / count on generated files of 5 000 and 70 000 records (thorough: 300 000, 1 000 000), starts first/last/(count-4096)/random, both directions; refused writes: every (refused op, next op) pair per stride + PRNG(seed) histories with refused ops at random positions; non-trivial = distinct (stride, operation, index class, option mix, result class) or distinct enumerated point",
+                  "enumerations: index -2..6 x {substitute, delete} x 4 strides, all GetRecords windows on 0..4 records, torn tails at every byte; long windows: n around 4096 / 2^k+1 / count on generated files of 5 000 and 70 000 records (thorough: 300 000, 1 000 000), starts first/last/(count-4096)/random, both directions; refused writes: every (refused op, next op) pair per stride + PRNG(seed) histories with refused ops at random positions; sparse: per stride the slots around byte offsets 2^31 / 2^32 / 2^33, index 2^23 / 2^24 / 2^24+1 / 2^25 / 2^31-8 and PRNG(seed) ones x {substitute, delete inside and beyond a small file, append aligned / torn, count, .DIR: read asc/desc, modify stored/stale/beyond}; non-trivial = distinct (stride, operation, index class, option mix, result class) or distinct enumerated point",
              assumptions=["the kernel writes the bytes it is given at the offset it is given (pwrite semantics incl. zero-filled holes are part of the model, observed, not verified)",
                           "locks (flock, range lock) are not part of this property; single-process runs",
                           "the delete tag is read from the build (ptttype.FN_SAFEDEL, a configurable string) and fed to the model",
                           "long windows: the file is generated from (count, seed) by the same rule in the driver and in the check (sha256 stream); contents are compared by a sha256 digest over (index, 128 record bytes) of everything returned, index lists literally; n is kept <= count+1 (make([]T,0,n) with n in the billions is an allocation question, not this property)",
                           "a write the OS refuses is produced with RLIMIT_FSIZE = 0 and SIGXFSZ ignored for the duration of one call (open, flock, range lock, lseek, reads succeed; write(2) returns EFBIG - observed: such a step must report that error unless it refuses by itself first); other causes (ENOSPC, EBADF, EIO) are assumed to take the same path through types.BinaryWrite; a write that is cut short by the OS after some bytes is the torn-tail part, not this one",
-                          "GetRecords with n < 0 panics in make(); modelled as Crash, not generated (callers pass n >= 0)"])
+                          "GetRecords with n < 0 panics in make(); modelled as Crash, not generated (callers pass n >= 0)",
+                          "sparse files: created with ftruncate + a few pwrite calls in the driver's scratch directory; afterwards every data extent reported by lseek(SEEK_DATA/SEEK_HOLE) is read and every stride-sized slot with a non-zero byte is listed (the file system is trusted to report all extents that hold data; holes read as zeros) - so a write landing ANYWHERE in the file (a wrapped offset near the head, a truncated offset) shows; the theorem part is that the sparse model equals the byte-list model (C05_sparse_*), the validation part is that the Go code computes index*stride without wrapping, observed for the four strides at offsets just below/at/above 2^31, 2^32, 2^33 and up to 2^40, indices up to 2^31-8",
+                          "files of 2^31 records and more cannot be addressed by the int32 index types (SortIdx, SortIdxInStore) and are not generated"])
 
 
 if __name__ == "__main__":
